@@ -70,6 +70,7 @@ type c17lookup struct {
 }
 
 var c17lookups = []c17lookup{
+	{"r.MapAnyAny", `"nilp"`, true}, {"r.MapAnyAny", `"nil"`, true}, {"r.MapAnyAny", `"absent"`, false}, {"r.MapArrAny", `karr`, true},
 	{"r.MapSS", `""`, true}, {"r.MapSS", `kempty`, true}, {"r.MapSI", `""`, false}, {"r.MapSS", `"k1"`, true}, {"r.MapSS", `"empty"`, true}, {"r.MapSS", `"absent"`, false}, {"r.MapSS", `kk1`, true}, {"r.MapSS", `kabsent`, false},
 	{"r.MapSI", `"zero"`, true}, {"r.MapSI", `"a"`, true}, {"r.MapSI", `"b"`, false},
 	{"r.MapIS", `1`, true}, {"r.MapIS", `0`, true}, {"r.MapIS", `7`, false}, {"r.MapIS", `ix2`, true}, {"r.MapIS", `ix9`, false},
@@ -82,6 +83,10 @@ var c17lookups = []c17lookup{
 // isset of a variable that an inner scope re-declared with no value (nil literal, value half of a failed two-value lookup,
 // assignment of nil): the innermost declaration is the one that counts, whatever the same name means further out
 var c17shadow = []struct{ src, want string }{
+	// elements of maps with interface / array keys that hold typed nils are nil like everywhere else
+	{`[{{ isset(r.MapAnyAny["nilp"]) }}{{ isset(r.MapAnyAny["nilm"]) }}{{ isset(r.MapAnyAny["nils"]) }}{{ isset(r.MapAnyAny["nil"]) }}{{ isset(r.MapAnyAny["absent"]) }}|{{ isset(r.MapAnyAny["v"]) }}{{ isset(r.MapAnyAny["zero"]) }}]`, "[falsefalsefalsefalsefalse|truetrue]"},
+	{`[{{ isset(r.MapAnyAny.nilp) }}{{ isset(r.MapAnyAny.v) }}{{ isset(r.MapArrAny[karr]) }}{{ isset(r.MapArrAny[karr2]) }}{{ isset(r.MapAnyAny["nilp"].Name) }}]`, "[falsetruefalsetruefalse]"},
+	{`[{{ isset(r.Nested["null"]) }}{{ isset(r.MapSP["nilp"]) }}{{ isset(r.MapSP.nilp) }}{{ isset(r.MapSP["p"]) }}]`, "[falsefalsefalsetrue]"},
 	{`{{ v := "outer" }}{{ if true }}{{ v := nil }}[{{ isset(v) }}]{{ end }}[{{ isset(v) }}]`, "[false][true]"},
 	{`{{ v := "outer" }}{{ if v, ok := r.MapSS["absent"]; !ok }}[{{ isset(v) }}]{{ end }}[{{ isset(v) }}]`, "[false][true]"},
 	{`{{ v := "outer" }}{{ if true }}{{ v, ok := r.MapSS["absent"] }}[{{ isset(v) }}{{ ok }}]{{ end }}`, "[falsefalse]"},
@@ -97,12 +102,12 @@ func c17run(c *fw.Ctx, idx int) {
 		d := c17shadow[idx]
 		g := &data.Gen{R: r}
 		root := g.Root()
-		c.Begin(idx, map[string]interface{}{"directed": "isset of a name re-declared without a value", "template": d.src})
+		c.Begin(idx, map[string]interface{}{"directed": "isset of names re-declared without a value / typed nil elements", "template": d.src})
 		defer c.End()
 		out := jx.Run(map[string]string{"/t.jet": d.src}, "/t.jet", c06vars(root), root, jx.NoEscape)
 		c.Count("directed_shadowing_cases", 1)
 		if out.Failed() || out.Out != d.want {
-			c.Violation(fmt.Sprintf("c17:isset-shadowed-by-nil:%d", idx), "", fmt.Sprintf("%s rendered %s, want %q", d.src, out, d.want))
+			c.Violation(fmt.Sprintf("c17:directed-isset:%d", idx), "", fmt.Sprintf("%s rendered %s, want %q", d.src, out, d.want))
 			return
 		}
 		c.Distinct(fmt.Sprintf("shadow|%d", idx))
